@@ -26,8 +26,11 @@ class _PrettyR:
     def __init__(self, R):
         self._R = R
 
-    def add(self, rule, body, instance, ok, where='', detail=''):
-        return self._R.add(rule, body, instance, ok, where, pretty(body, detail))
+    def add(self, rule, body, instance, ok, where='', detail='', undecided=False):
+        return self._R.add(rule, body, instance, ok, where, pretty(body, detail), undecided=undecided)
+
+    def undecided(self, rule, body, instance, where='', detail=''):
+        return self._R.undecided(rule, body, instance, where, pretty(body, detail))
 
     def __getattr__(self, k):
         return getattr(self._R, k)
@@ -183,8 +186,12 @@ def mark_rules(prog, R):
                         if any(outcome(p, v) is not None for v in vals) or fmt == 'fastq':
                             bad.append('success path without "byte == 0x%02x"' % marker)
                 n += 1
+                # a function that only reports a defect found elsewhere has no comparison with the marker at all: not judged
+                tests_here = any(any(v2 == marker for v2, _ in blk.term.targets) for blk in b.blocks if blk.term.k == 'switch') or any(
+                    st.k == 'assign' and st.rv.k == 'bin' and st.rv.j['op'] in ('Eq', 'Ne') and any(o.const_int() == marker for o in st.rv.ops) for blk in b.blocks for st in blk.stmts)
                 R.add('MARK-1', b, '%s-iff-byte-differs-from-marker' % var, bool(errp) and not bad, site(b, b.span['lo']),
-                      '%d error paths, %d success paths, marker 0x%02x: %s' % (len(errp), len(okp), marker, sorted(set(bad)) or 'consistent'))
+                      '%d error paths, %d success paths, marker 0x%02x: %s' % (len(errp), len(okp), marker, sorted(set(bad)) or 'consistent'),
+                      undecided=bool(bad) and not tests_here)
     R.floor('MARK-1', 3)
 
 
@@ -224,8 +231,10 @@ def find_rules(prog, R):
                                 if t2.callee and t2.callee.is_('std::ops::Index::index') and Aff.sym(('call', t2.callee.path, by)) == hay and isinstance(a2[1], Agg) and len(a2[1].fields) == 1:
                                     S = a2[1].fields[0]
                 where = site(b, t.line)
-                if needle is not None and needle != Aff.const(10):
-                    R.add('FIND-1', b, 'needle-is-LF', False, where, 'memchr searches for %r' % (needle,))
+                if needle is not None and needle != Aff.const(10) and (whole or S is not None):
+                    R.add('FIND-1', b, 'needle-is-LF', False, where, 'memchr searches the reader buffer for %r' % (needle,))
+                elif needle is not None and needle != Aff.const(10):
+                    continue     # a search inside a line that was already cut (the space behind an id): not a line search
                 if whole:
                     R.add('FIND-1', b, 'found-offset-rebased-by-slice-start', True, where, 'the whole buffer is searched: the found offset is a buffer offset as it is')
                     continue
@@ -235,15 +244,26 @@ def find_rules(prog, R):
                 res = ('call', t.callee.path, x)
                 P = [Aff.sym(('f', res, 'Some', '0'))]
                 verdicts = []
-                # (1) values computed from the found offset on any path
+                # (1) values computed from the found offset, judged against the slice start of the SAME path
+                # (in a loop the start is a loop-carried value: entry path and iteration path name it differently)
                 for p in allp:
+                    Sp = None
+                    for (bx, tt, a) in p.effects:
+                        if tt is t and len(a) == 2:
+                            for (by, t2, a2) in p.effects:
+                                if t2.callee and t2.callee.is_('std::ops::Index::index') and Aff.sym(('call', t2.callee.path, by)) == a[1] and isinstance(a2[1], Agg) and len(a2[1].fields) == 1:
+                                    Sp = a2[1].fields[0]
+                    if Sp is None or not isinstance(Sp, Aff):
+                        continue
                     for v in list(p.env.values()) + [v2 for (_, _, v2) in p.writes] + [a2 for (_, _, args) in p.effects for a2 in args]:
                         for a in _vals(v):
                             for ps in P:
                                 k = ps.single()
                                 if a.t.get(k) == 1:
                                     rest = a - ps
-                                    verdicts.append((rest - Aff.const(rest.c), rest.c, 'value %r' % (a,)))
+                                    base_ = rest - Aff.const(rest.c)
+                                    # normalise to the representative S when this path's start is what was added
+                                    verdicts.append((S if base_ == Sp else base_, rest.c, 'value %r (slice start %r)' % (a, Sp)))
                 # (2) Option::map(closure): closure(capture, found) = capture + found + c
                 for cb in prog.closures_of(b):
                     init = Path()
